@@ -115,10 +115,12 @@ func (w *worker) kill() {
 	}
 }
 
+// stderrTail returns the beginning of the worker's stderr (where a fatal error announces
+// itself) and, when it is long, its end.
 func (w *worker) stderrTail(n int) string {
 	b, _ := os.ReadFile(w.errLog)
 	if len(b) > n {
-		b = b[len(b)-n:]
+		return string(b[:n/2]) + "\n[...]\n" + string(b[len(b)-n/2:])
 	}
 	return string(b)
 }
@@ -372,6 +374,10 @@ func (d *driverCfg) runPhase(eng Engine, ph Phase, deadline time.Time, nextID *i
 				if res != nil && res.Verdict == "violation" && res.Class != "process-death" {
 					res = d.confirm(eng, job, res)
 				}
+				if res != nil && res.Verdict == "violation" && (res.Class == "process-death" || res.Class == "hang") && !ownsDeath(d.prop) {
+					// a build that kills or wedges the process is C01's finding, not this property's
+					res = &Result{ID: res.ID, Seed: res.Seed, Verdict: "ok", Foreign: []string{"C01:" + res.Class}}
+				}
 				if res != nil {
 					handle(job, res)
 				}
@@ -408,6 +414,8 @@ func (d *driverCfg) confirmDeath(eng Engine, job *Job, tail string) *Result {
 	return &Result{ID: job.ID, Seed: c.Seed, Verdict: "violation", Class: "process-death", Sig: sig,
 		Msg: "the process executing the build died:\n" + lastLines(stderr, 30), Case: c}
 }
+
+func ownsDeath(prop string) bool { return prop == "C01" || prop == "C18" }
 
 func lastLines(s string, n int) string {
 	ll := strings.Split(strings.TrimRight(s, "\n"), "\n")
